@@ -99,7 +99,7 @@ def _tlc_phase(seed, sl, timeout, workers):
         from .envs import JetPool
 
         j = sl.jets
-        pool = JetPool(sl.terminals, j["mode"], ndir=j.get("ndir", 0), seeds=j.get("seeds"), nenv=sl.nenv, seed=seed + hash_name(sl.name), tiny=True, complex_env=sl.complex_env, opts=j.get("opts"))
+        pool = JetPool(sl.terminals, j["mode"], ndir=j.get("ndir", 0), seeds=j.get("seeds"), nenv=sl.nenv, seed=seed + hash_name(sl.name), tiny=True, complex_env=sl.complex_env, opts=j.get("opts"), nspat=j.get("nspat"), varsizes=j.get("varsizes"))
         pool.gateaux = j.get("gateaux", [])
         pool.seed_term = j.get("seed_term")
     else:
